@@ -97,9 +97,15 @@ def run(prop, tier, seed, work, replay, t0):
     problems = []  # broken proof obligations / correspondences (strings)
 
     # ---- 1. proof step ---------------------------------------------------------------------
-    ok, log = coqbridge.build(clean=(tier == "thorough" and os.environ.get("VERIF_NO_CLEAN") != "1"))
+    ok, log = coqbridge.build()
     if not ok:
         problems.append("coq build failed: " + log[-1500:])
+    clean_dir = None
+    if tier == "thorough" and ok and os.environ.get("VERIF_NO_CLEAN") != "1":
+        cok, clog, clean_dir = coqbridge.clean_build(work)
+        if not cok:
+            problems.append("clean rebuild of the whole development failed: " + clog[-1500:])
+            clean_dir = None
     bad = coqbridge.hygiene()
     if bad:
         problems.append("forbidden declarations: " + "; ".join(bad[:10]))
@@ -113,7 +119,7 @@ def run(prop, tier, seed, work, replay, t0):
             )
     coqchk = None
     if tier == "thorough" and ok and os.environ.get("VERIF_NO_COQCHK") != "1":
-        coqchk = coqbridge_coqchk(mod.THEOREM_FILE)
+        coqchk = coqbridge_coqchk(mod.THEOREM_FILE, clean_dir)
         if not coqchk["ok"]:
             problems.append("coqchk failed: " + coqchk["log"][-800:])
 
@@ -231,6 +237,8 @@ def run(prop, tier, seed, work, replay, t0):
     }
     if coqchk is not None:
         cov["coqchk"] = coqchk.get("summary")
+    if tier == "thorough":
+        cov["clean_rebuild"] = "full .vo build of every file of _CoqProject from clean in a private copy: " + ("ok" if clean_dir else "skipped or failed")
     extra = getattr(mod, "extra_coverage", None)
     if extra:
         cov.update(extra(ctx, results))
@@ -259,13 +267,15 @@ def anchor_hashes(prop, origin):
     return out
 
 
-def coqbridge_coqchk(prop_file):
+def coqbridge_coqchk(prop_file, root=None):
+    """independent re-check of the property's compiled file (from the clean private build when there is one)"""
     import subprocess
 
+    root = root or coqbridge.COQ
     mod = "Ladim." + prop_file[:-2].replace("/", ".")
     try:
-        p = subprocess.run(["coqchk", "-silent", "-o", "-Q", str(coqbridge.COQ), "Ladim", mod], capture_output=True,
-                           text=True, timeout=1800, cwd=coqbridge.COQ)
+        p = subprocess.run(["coqchk", "-silent", "-o", "-Q", str(root), "Ladim", mod], capture_output=True,
+                           text=True, timeout=1800, cwd=root)
         out = p.stdout + p.stderr
         return {"ok": p.returncode == 0, "log": out[-2000:], "summary": out[-1200:]}
     except Exception as e:  # noqa: BLE001
